@@ -512,9 +512,33 @@ func errFallThrough(fn *ssa.Function) []ssa.CallInstruction {
 				fall = true
 				break
 			}
-			for _, s := range n.Succs {
+			handledSide := -1
+			if iff2, isIf := lastInstr(n).(*ssa.If); isIf && n != b {
+				// `err == ErrSomething` (a specific, non-nil error): the equal side is explicit handling of that
+				// failure, not a fall-through
+				c2, flip2 := stripNot(iff2.Cond)
+				if bo2, isB := c2.(*ssa.BinOp); isB && (bo2.Op == token.EQL || bo2.Op == token.NEQ) {
+					other := ssa.Value(nil)
+					if bo2.X == x {
+						other = bo2.Y
+					} else if bo2.Y == x {
+						other = bo2.X
+					}
+					if other != nil && !IsNilConst(other) {
+						if (bo2.Op == token.EQL) != flip2 {
+							handledSide = 0
+						} else {
+							handledSide = 1
+						}
+					}
+				}
+			}
+			for i, s := range n.Succs {
 				if s == b || s.Dominates(b) {
 					continue // back edge: next iteration
+				}
+				if i == handledSide {
+					continue
 				}
 				stack = append(stack, s)
 			}
